@@ -1,5 +1,8 @@
 // C17 launcher: gives the program under test a DEFINED process environment, whatever ./check inherited.
-//   c17_launch [-i SIGNO]... -- prog args...
+//   c17_launch [-i SIGNO]... [-c ERRNO] -- prog args...
+//   -c ERRNO: every close(1) of the program fails with ERRNO (seccomp filter, SECCOMP_RET_ERRNO): the way to make the
+//   FINAL close of standard output fail -- stdio's fclose(stdout) does not go through the PLT, so the LD_PRELOAD
+//   interposer cannot see it. Exit status 124 = the filter could not be installed (seccomp unavailable).
 // Resets every signal xz cares about (and QUIT/ALRM/USR1/USR2/CHLD) to SIG_DFL, empties the signal mask, sets umask 022,
 // raises the soft RLIMIT_FSIZE / RLIMIT_CPU to the hard limits, then marks the signals given with -i as ignored
 // (the "inherited SIG_IGN" scenarios) and exec's the program. Dispositions SIG_DFL/SIG_IGN and the mask survive exec.
@@ -10,6 +13,32 @@
 #include <sys/resource.h>
 #include <sys/stat.h>
 #include <unistd.h>
+#include <errno.h>
+#include <stddef.h>
+#include <sys/prctl.h>
+#include <sys/syscall.h>
+#include <linux/audit.h>
+#include <linux/filter.h>
+#include <linux/seccomp.h>
+
+// close(fd == 1) -> -1/errno; everything else is allowed
+static int fail_close_of_stdout(int err)
+{
+	struct sock_filter f[] = {
+		BPF_STMT(BPF_LD | BPF_W | BPF_ABS, offsetof(struct seccomp_data, arch)),
+		BPF_JUMP(BPF_JMP | BPF_JEQ | BPF_K, AUDIT_ARCH_X86_64, 0, 5),
+		BPF_STMT(BPF_LD | BPF_W | BPF_ABS, offsetof(struct seccomp_data, nr)),
+		BPF_JUMP(BPF_JMP | BPF_JEQ | BPF_K, __NR_close, 0, 3),
+		BPF_STMT(BPF_LD | BPF_W | BPF_ABS, offsetof(struct seccomp_data, args[0])),
+		BPF_JUMP(BPF_JMP | BPF_JEQ | BPF_K, 1, 0, 1),
+		BPF_STMT(BPF_RET | BPF_K, SECCOMP_RET_ERRNO | ((unsigned)err & SECCOMP_RET_DATA)),
+		BPF_STMT(BPF_RET | BPF_K, SECCOMP_RET_ALLOW),
+	};
+	struct sock_fprog prog = { .len = (unsigned short)(sizeof(f) / sizeof(f[0])), .filter = f };
+	if (prctl(PR_SET_NO_NEW_PRIVS, 1, 0, 0, 0) != 0)
+		return -1;
+	return (int)syscall(SYS_seccomp, SECCOMP_SET_MODE_FILTER, 0, &prog);
+}
 
 int main(int argc, char **argv)
 {
@@ -29,8 +58,15 @@ int main(int argc, char **argv)
 		signal(atoi(argv[i + 1]), SIG_IGN);
 		i += 2;
 	}
+	if (i + 1 < argc && strcmp(argv[i], "-c") == 0) {
+		if (fail_close_of_stdout(atoi(argv[i + 1])) != 0) {
+			perror("c17_launch: seccomp");
+			return 124;
+		}
+		i += 2;
+	}
 	if (i >= argc || strcmp(argv[i], "--") != 0 || i + 1 >= argc) {
-		fprintf(stderr, "usage: c17_launch [-i SIGNO]... -- prog args...\n");
+		fprintf(stderr, "usage: c17_launch [-i SIGNO]... [-c ERRNO] -- prog args...\n");
 		return 125;
 	}
 	execv(argv[i + 1], argv + i + 1);
